@@ -1,28 +1,41 @@
 #!/venv/bin/python
-"""Adds the round-1 verdicts (notes/seeded_round1.log) to seeded/*/meta.json and
-prints the markdown table for DESIGN.md section 12."""
+"""Adds the first-evaluation verdicts (notes/seeded_round{1,2}.log: the checks as
+they were *before* the change was known) to seeded/*/meta.json and prints the
+markdown table for DESIGN.md section 12."""
 import json, os, re
 HERE = os.path.dirname(os.path.abspath(__file__))
 VERIF = os.path.dirname(HERE)
-r1 = {}
-for line in open(os.path.join(VERIF, "notes", "seeded_round1.log")):
-    m = re.match(r"(C\d+)\s+(\S+)\s+confirmed=(\w+) caught=(\w+)", line)
-    if m:
-        r1[(m.group(1), m.group(2))] = m.group(4) == "True"
+first = {}
+for rnd, fn in (("r1", "seeded_round1.log"), ("r2", "seeded_round2.log")):
+    path = os.path.join(VERIF, "notes", fn)
+    if not os.path.exists(path):
+        continue
+    for line in open(path):
+        m = re.match(r"(C\d+)\s+(\S+)\s+confirmed=(\w+) caught=(\w+)", line)
+        if m:
+            first[(m.group(1), m.group(2), rnd)] = m.group(4) == "True"
 rows = []
+tot = {"r1": [0, 0, 0], "r2": [0, 0, 0]}
 for d in sorted(os.listdir(os.path.join(VERIF, "seeded"))):
     mp = os.path.join(VERIF, "seeded", d, "meta.json")
     if not os.path.exists(mp):
         continue
     meta = json.load(open(mp))
-    key = (meta["property"], meta["name"])
-    meta["caught_round1_before_strengthening"] = r1.get(key)
+    rnd = meta.get("round", "r1")
+    key = (meta["property"], meta["name"], rnd)
+    meta["caught_at_first_evaluation"] = first.get(key)
     meta["caught_now"] = meta.get("check_caught")
+    meta.pop("caught_round1_before_strengthening", None)
     json.dump(meta, open(mp, "w"), indent=1)
     cls = (meta.get("check_classes") or [""])[0].split(" machine=")[0].replace("class=", "")
-    need = (meta.get("needs") or "").strip().splitlines()
-    rows.append("| %s | %s | %s | %s | %s |" % (meta["property"], meta["name"],
-                "yes" if r1.get(key) else "no", "yes" if meta.get("check_caught") else "NO", cls))
-print("| property | change (seeded/<property>-<name>) | caught in round 1 | caught now | violation class |")
-print("|---|---|---|---|---|")
+    tot[rnd][0] += 1
+    tot[rnd][1] += bool(first.get(key))
+    tot[rnd][2] += bool(meta.get("check_caught"))
+    rows.append("| %s | %s | %s | %s | %s | %s |" % (meta["property"], rnd, meta["name"],
+                "yes" if first.get(key) else "no", "yes" if meta.get("check_caught") else "NO", cls))
+print("| property | round | change (seeded/) | caught at first evaluation | caught by the final checks | violation class |")
+print("|---|---|---|---|---|---|")
 print("\n".join(rows))
+for rnd in ("r1", "r2"):
+    print("\nround %s: %d confirmed changes, %d caught at first evaluation, %d caught by the final checks."
+          % (rnd, tot[rnd][0], tot[rnd][1], tot[rnd][2]))
